@@ -109,6 +109,13 @@ theorem strip_nonempty {com : Bytes} (hw : wfComment com = true) (hne : com ≠ 
   rw [strip_isEmpty hw]
   simpa using hne
 
+theorem tabs_strip_nonempty {com : Bytes} (hw : wfComment com = true) (hne : com ≠ []) (ci : Int) :
+    (tabs ci ++ stripTrailingSpaces com).isEmpty = false := by
+  have := strip_nonempty hw hne
+  cases h : stripTrailingSpaces com with
+  | nil => rw [h] at this; simp at this
+  | cons a as => simp
+
 /-! ### the second run over comment lines: `flushComments` -/
 
 /-- lines without a comment are skipped -/
@@ -193,7 +200,7 @@ theorem flush_crun (C : Array Bytes) (ci : Int) (k : Nat) (hk : k = (4 * ci).toN
     have e : s.commentLine + (j - s.commentLine) = j := by omega
     rw [e, flushComments, if_pos (by simp only; omega)]
     simp only [commentText_getC, hCj, strip_idem, strip_nonempty hw hne, Bool.false_eq_true, ↓reduceIte,
-      List.isEmpty_append, Bool.and_false]
+      tabs_strip_nonempty hw hne]
     -- the blank-line decision
     have hdec : (j > s.prevLine + 1) = (b = true) := by
       cases hfb : first with
@@ -227,23 +234,25 @@ theorem flush_crun (C : Array Bytes) (ci : Int) (k : Nat) (hk : k = (4 * ci).toN
       rw [piecesBytes_append, tabs_replicate, ← hk]
       cases b <;> simp [optBlank, piecesBytes, Piece.bytes]
     rw [hout]
-    congr 1
-    · simp only [hdec, List.append_assoc]
-    · simp only [List.length_append, List.length_cons, hblen]
+    have e1 : (if j > s.prevLine + 1 then [10] else [] : Bytes) = if b = true then [10] else [] := by
+      by_cases hj : j > s.prevLine + 1
+      · rw [if_pos hj, if_pos (Eq.mp hdec hj)]
+      · rw [if_neg hj, if_neg (fun h => hj (Eq.mpr hdec h))]
+    have e2 : (if r.isEmpty = true then 0 else 0 : Nat) = 0 := by split <;> rfl
+    have e3 : (if r.isEmpty = true then j else j + 1 + r.length - 1) =
+        l + (optBlank b ++ Piece.comment k com :: r).length - 1 := by
+      simp only [List.length_append, List.length_cons, hblen]
       cases hr : r.isEmpty with
       | true =>
         have : r = [] := by simpa using hr
         subst this
-        simp only [List.length_nil, j]
+        simp only [List.length_nil, j, ↓reduceIte]
         split <;> omega
       | false =>
-        have : r.length ≠ 0 := by
-          intro h0
-          have : r = [] := List.length_eq_zero_iff.mp h0
-          rw [this] at hr
-          simp at hr
         simp only [Bool.false_eq_true, ↓reduceIte, j]
         split <;> omega
+    rw [e1, e2, e3]
+    simp only [List.append_assoc]
 
 /-! ### the second run over the trailing comment lines -/
 
@@ -337,7 +346,7 @@ theorem trailing_crun (C : Array Bytes) (k : Nat) :
     have e : s.commentLine + (j - s.commentLine) = j := by omega
     rw [e, trailingComments, if_pos (by simp only; omega)]
     simp only [commentText_getC, hCj, strip_idem, strip_nonempty hw hne, Bool.false_eq_true, ↓reduceIte,
-      List.isEmpty_append, Bool.and_false]
+      tabs_strip_nonempty hw hne]
     have hdec : (j > s.prevLine + 1) = (b = true) := by
       cases hfb : first with
       | true =>
@@ -368,6 +377,11 @@ theorem trailing_crun (C : Array Bytes) (k : Nat) :
       rw [piecesBytes_append, tabs_replicate, ← hk]
       cases b <;> simp [optBlank, piecesBytes, Piece.bytes]
     rw [hout]
-    simp only [hdec, List.append_assoc]
+    have e1 : (if j > s.prevLine + 1 then [10] else [] : Bytes) = if b = true then [10] else [] := by
+      by_cases hj : j > s.prevLine + 1
+      · rw [if_pos hj, if_pos (Eq.mp hdec hj)]
+      · rw [if_neg hj, if_neg (fun h => hj (Eq.mpr hdec h))]
+    rw [e1]
+    simp only [List.append_assoc]
 
 end WuffsVerif.Render
